@@ -1,5 +1,31 @@
-From LD Require Import Base F32 Data Model Ops Bucket Eval EvalFacts.
+(* C01 Evaluation is total and every result is well-formed. Statements only; proofs are in theories/. *)
+From LD Require Import Base F32 Data Model Ops Bucket Eval EvalFacts Safety WellFormed.
+
+(* for every flag (malformed or not), context, finite store and provider: a result, never a panic site, never out of fuel *)
+Theorem C01_total : forall re_ok re_match o E P c f, exists out, run re_ok re_match o E P c f = Done out.
+Proof. exact run_total. Qed.
+Print Assumptions C01_total.
+
+(* index in range with exactly that variation's value and a non-error reason | no index, null, MALFORMED_FLAG |
+   no index, null, OFF / PREREQUISITE_FAILED only when the flag defines no off variation *)
+Theorem C01_wellformed : forall re_ok re_match o E P c f out,
+  c <> CInvalid -> run re_ok re_match o E P c f = Done out -> wf_detail f (out_detail out).
+Proof. exact run_wellformed. Qed.
+Print Assumptions C01_wellformed.
+
+Theorem C01_error_kinds : forall re_ok re_match o E P c f out k,
+  run re_ok re_match o E P c f = Done out -> rs_kind (d_reason (out_detail out)) = RError k ->
+  (k = KMalformed /\ c <> CInvalid) \/ (k = KUserNotSpecified /\ c = CInvalid).
+Proof. exact run_error_kinds. Qed.
+Print Assumptions C01_error_kinds.
+
+(* an invalid context yields USER_NOT_SPECIFIED, null, no index, and an empty trace: the stores are not consulted *)
 Theorem C01_invalid_ctx : forall re_ok re_match o E P f,
   run re_ok re_match o E P CInvalid f = Done (mkoutcome (err_detail KUserNotSpecified) false []).
 Proof. exact run_invalid. Qed.
 Print Assumptions C01_invalid_ctx.
+
+(* the served index is within the bounds of the variation list *)
+Theorem C01_index_in_range : forall (l : list jv) i v, znth_opt l i = Some v -> (0 <= i < zlen l)%Z.
+Proof. exact (@znth_in_range jv). Qed.
+Print Assumptions C01_index_in_range.
